@@ -43,6 +43,8 @@ fn run2<S: Fixed + PartialOrd<D>, D: Fixed>(op: &str, a: &[&str]) -> String wher
         "cv_checked_from" => match D::checked_from_num(x) { None => "N".into(), Some(v) => format!("S:{}", v.to_bits()) },
         "cv_saturating_from" => fx::<D>(D::saturating_from_num(x)),
         "cv_wrapping_from" => fx::<D>(D::wrapping_from_num(x)),
+        "cv_wfrom" => fx::<D>(substrate_fixed::Wrapping::<D>::from_num(x).0),
+        "cv_wto" => fx::<D>(substrate_fixed::Wrapping(x).to_num::<D>()),
         "cv_overflowing_from" => { let (v, o) = D::overflowing_from_num(x); format!("{},{}", v.to_bits(), b01(o)) }
         _ => {
             if let Some(c) = op.strip_prefix("cmp_") {
@@ -78,6 +80,8 @@ macro_rules! int_ops {
             "icv_checked_from" => match <$F>::checked_from_num(k(2)) { None => "N".into(), Some(v) => format!("S:{}", v.to_bits()) },
             "icv_saturating_from" => fx::<$F>(<$F>::saturating_from_num(k(2))),
             "icv_wrapping_from" => fx::<$F>(<$F>::wrapping_from_num(k(2))),
+            "icv_wfrom" => fx::<$F>(substrate_fixed::Wrapping::<$F>::from_num(k(2)).0),
+            "icv_wto" => format!("{}", substrate_fixed::Wrapping(x).to_num::<$I>()),
             "icv_overflowing_from" => { let (v, o) = <$F>::overflowing_from_num(k(2)); format!("{},{}", v.to_bits(), b01(o)) }
             _ => {
                 if let Some(c) = $op.strip_prefix("icmp_") { let y = k(2); cmp_ops!(c, x, y) }
@@ -105,6 +109,7 @@ where
                 "icv_checked_from" => match F::checked_from_num(arg(a, 2) == "1") { None => "N".into(), Some(v) => format!("S:{}", v.to_bits()) },
                 "icv_saturating_from" => fx::<F>(F::saturating_from_num(arg(a, 2) == "1")),
                 "icv_wrapping_from" => fx::<F>(F::wrapping_from_num(arg(a, 2) == "1")),
+                "icv_wfrom" => fx::<F>(substrate_fixed::Wrapping::<F>::from_num(arg(a, 2) == "1").0),
                 "icv_overflowing_from" => { let (v, o) = F::overflowing_from_num(arg(a, 2) == "1"); format!("{},{}", v.to_bits(), b01(o)) }
                 _ => "UNKNOWN".to_string(),
             }
@@ -126,6 +131,7 @@ macro_rules! float_ops {
             "fcv_checked_from" => match <$F>::checked_from_num(fl(2)) { None => "N".into(), Some(v) => format!("S:{}", v.to_bits()) },
             "fcv_saturating_from" => fx::<$F>(<$F>::saturating_from_num(fl(2))),
             "fcv_wrapping_from" => fx::<$F>(<$F>::wrapping_from_num(fl(2))),
+            "fcv_wfrom" => fx::<$F>(substrate_fixed::Wrapping::<$F>::from_num(fl(2)).0),
             "fcv_overflowing_from" => { let (v, o) = <$F>::overflowing_from_num(fl(2)); format!("{},{}", v.to_bits(), b01(o)) }
             _ => {
                 if let Some(c) = $op.strip_prefix("fcmp_") { let y = fl(2); cmp_ops!(c, x, y) }
